@@ -669,6 +669,7 @@ fn mk_options<'a>(
   cfg: &'a BuildCfg,
   executor: &'a dyn deno_graph::Executor,
   locker: Option<&'a mut dyn Locker>,
+  analyzer: Option<&'a dyn deno_graph::analysis::ModuleAnalyzer>,
 ) -> BuildOptions<'a> {
   let mut o = BuildOptions {
     is_dynamic: cfg.is_dynamic,
@@ -687,6 +688,9 @@ fn mk_options<'a>(
   if let Some(vr) = &cfg.version_resolver {
     o.jsr_version_resolver = Cow::Borrowed(vr);
   }
+  if let Some(a) = analyzer {
+    o.module_analyzer = a;
+  }
   o
 }
 
@@ -702,6 +706,23 @@ pub fn run_build<'a>(
   exec: Exec<'a>,
   reload: Option<&[String]>,
 ) -> BuildRun {
+  run_build_with_analyzer(graph, roots, imports, loader, cfg, locker, exec, reload, None)
+}
+
+/// Same, with an embedder-supplied module analyzer (e.g. a `CapturingModuleAnalyzer` that the caller keeps
+/// across builds and reloads, as the CLI and the language server do).
+#[allow(clippy::too_many_arguments)]
+pub fn run_build_with_analyzer<'a>(
+  graph: &mut ModuleGraph,
+  roots: &[String],
+  imports: &[(String, Vec<String>)],
+  loader: &'a dyn Loader,
+  cfg: &'a BuildCfg,
+  locker: Option<&'a mut dyn Locker>,
+  exec: Exec<'a>,
+  reload: Option<&[String]>,
+  analyzer: Option<&'a dyn deno_graph::analysis::ModuleAnalyzer>,
+) -> BuildRun {
   let roots: Vec<ModuleSpecifier> = roots.iter().map(|r| url(r)).collect();
   let imports: Vec<ReferrerImports> = imports
     .iter()
@@ -716,7 +737,7 @@ pub fn run_build<'a>(
     reload.map(|r| r.iter().map(|s| url(s)).collect());
   match exec {
     Exec::Inline => {
-      let options = mk_options(cfg, inline, locker);
+      let options = mk_options(cfg, inline, locker, analyzer);
       match reload_specs {
         Some(r) => crate::sched::block_on(graph.reload(r, loader, options)),
         None => crate::sched::block_on(graph.build(roots, imports, loader, options)),
@@ -727,7 +748,7 @@ pub fn run_build<'a>(
       }
     }
     Exec::Sched(s, strategy, budget) => {
-      let options = mk_options(cfg, s, locker);
+      let options = mk_options(cfg, s, locker, analyzer);
       let (r, out) = match reload_specs {
         Some(rs) => s.run(graph.reload(rs, loader, options), strategy, budget),
         None => s.run(graph.build(roots, imports, loader, options), strategy, budget),
@@ -738,7 +759,7 @@ pub fn run_build<'a>(
       }
     }
     Exec::Tokio => {
-      let options = mk_options(cfg, Default::default(), locker);
+      let options = mk_options(cfg, Default::default(), locker, analyzer);
       let rt = tokio::runtime::Builder::new_current_thread().build().unwrap();
       match reload_specs {
         Some(r) => rt.block_on(graph.reload(r, loader, options)),
